@@ -171,7 +171,27 @@ func (e IbcEngine) Check(r *Run, s *Step, o *Outcome) []Violation {
 			}
 		}
 	}
-	return vs
+	return st.only(vs)
+}
+
+// only: in C18 mode nothing but the C18 oracles is reported.
+func (st *IbcSt) only(vs []Violation) []Violation {
+	if !st.C18 {
+		var out []Violation
+		for _, v := range vs {
+			if v.Invariant != "tolerated-failure" { // C19 judges the same situation with memo-caller@call-count
+				out = append(out, v)
+			}
+		}
+		return out
+	}
+	var out []Violation
+	for _, v := range vs {
+		if v.Invariant == "tolerated-failure" || v.Invariant == "error-ack-no-effects" {
+			out = append(out, v)
+		}
+	}
+	return out
 }
 
 // checkLedgers compares the expected balances with the app. Every step judges the addresses
@@ -317,6 +337,17 @@ func (e IbcEngine) Finish(r *Run) []Violation {
 		o := e.Apply(r, &s)
 		return e.Check(r, &s, o), o
 	}
+	// faults off includes governance: token pairs that were switched off are switched on again,
+	// a refund that was refused while its pair was disabled is a retryable refusal
+	pairs := w.App.Erc20Keeper.GetAllTokenPairs(w.Ctx())
+	sort.Slice(pairs, func(i, j int) bool { return pairs[i].Erc20Address < pairs[j].Erc20Address })
+	for _, p := range pairs {
+		if !p.Enabled {
+			if vs, _ := step(Step{Kind: "gov", DtMs: 5000, A: A("what", "toggle", "token", p.Erc20Address)}); len(vs) > 0 || r.Foreign != "" {
+				return vs
+			}
+		}
+	}
 	for round := 0; round < 6; round++ {
 		progress := false
 		for _, id := range st.Order {
@@ -376,7 +407,10 @@ func (e IbcEngine) Finish(r *Run) []Violation {
 
 	// observation only (ICS-20 conservation is not part of C19's text): vouchers in circulation
 	// versus the FX escrowed for them on the peer channel
-	for _, ch := range ibcChannels {
+	if st.C18 {
+		return nil
+	}
+	for _, ch := range st.Chans {
 		sup := w.App.BankKeeper.GetSupply(w.Ctx(), ibcV(ch)).Amount
 		esc := w.App.BankKeeper.GetBalance(w.Ctx(), transfertypes.GetEscrowAddress(ibcPort, ibcPeer(ch)), fxtypes.DefaultDenom).Amount
 		if sup.GT(esc) {
@@ -398,6 +432,16 @@ func (e IbcEngine) Finish(r *Run) []Violation {
 		p := st.Pkts[id]
 		if p == nil {
 			r.Probe("relation-of-unknown-packet")
+			open := 0
+			for _, q := range st.Pkts {
+				if q.FromEVM && q.Settled == "" {
+					open++
+				}
+			}
+			if open == 0 {
+				add(Violation{Invariant: "relation-removed", Site: "finish:record-of-no-open-transfer",
+					Message: fmt.Sprintf("IBC transfer relation %q (erc20 store prefix 0x04) exists although every EVM-started transfer of the run is settled and none has this (channel/sequence) id", id)})
+			}
 			continue
 		}
 		r.Probe("relation-checked")
